@@ -227,6 +227,52 @@ def histories(n: int, fix: Optional[Tuple[int, int]] = None, twin: bool = False,
     return check_histories, {"p2": fix[0] if fix else 0, "p3": fix[1] if fix else 0, "p4": 0, "p5": 0, "p6": 0}
 
 
+def long_chain(L: int, lo: int = 0, hi: int = 10 ** 9, twin: bool = False, real: bool = False):
+    """"Any earlier block as parent" must not depend on how deep that block is buried: a linear chain of L blocks, then a block
+    on a parent at a symbolic height and a child of that block. Every stored block keeps its by-height index and its
+    unspent-output entry whatever its depth."""
+    env = Env(real=real)
+
+    def check_long_chain(p: int) -> bool:
+        """
+        post: _
+        """
+        if not (0 <= p <= L - 3 and lo <= p < hi):
+            return True
+        blocks: List[Any] = []
+        cs = env.empty_state()
+        for i in range(L):
+            prev = ZERO32 if i == 0 else blocks[i - 1].hash()
+            b = env.block(i, prev, [env.coinbase(i, [], tok(TX, i))], tok(BLK, i))
+            blocks.append(b)
+            cs = cs.add_block_no_validation(b)
+        par = blocks[p]
+        try:
+            f1 = env.block(p + 1, par.hash(), [env.coinbase(p + 1, [], tok(TX, 1000))], tok(0xB7, 1))
+            cs = cs.add_block_no_validation(f1)
+            f2 = env.block(p + 2, f1.hash(), [env.coinbase(p + 2, [], tok(TX, 1001))], tok(0xB7, 2))
+            cs = cs.add_block_no_validation(f2)
+        except Exception:
+            return False
+        if twin:
+            return False
+        if cs.current_chain_hash != blocks[L - 1].hash():
+            return False         # p + 2 <= L - 1: the fork never overtakes
+        if sorted(cs.heads.keys()) != sorted([blocks[L - 1].hash(), f2.hash()]):
+            return False
+        i2 = cs.block_by_height_by_hash[f2.hash()]
+        if len(i2) != p + 3 or i2[p + 2] is not f2 or i2[p + 1] is not f1 or i2[p] is not par or i2[0] is not blocks[0]:
+            return False
+        for j, b in enumerate(blocks):
+            if b.hash() not in cs.block_by_height_by_hash or b.hash() not in cs.unspent_transaction_outs_by_hash:
+                return False
+            if len(cs.block_by_height_by_hash[b.hash()]) != j + 1:
+                return False
+        return True
+
+    return check_long_chain, {"p": max(3, lo)}
+
+
 def obligations(tier: str, known: List[str]) -> List[Ob]:
     obs: List[Ob] = []
     for p_is_c, p_in_heads in ((True, True), (False, True), (False, False)):
@@ -242,7 +288,17 @@ def obligations(tier: str, known: List[str]) -> List[Ob]:
                 obs.append(Ob("histories[blocks=7,p2=%d,p3=%d]" % (p2, p3), C_HEAD + "; " + C_TIPS + "; " + C_IDX, "histories",
                               {"n": 7, "fix": (p2, p3)}, timeout=2400))
     obs.append(twin_of(obs[-1]))
-    return obs
+    return obs + _long_obs(tier)
+
+
+def _long_obs(tier: str) -> List[Ob]:
+    L = 260 if tier == "thorough" else 130
+    out = []
+    step = 16 if tier != "thorough" else 20
+    for lo in range(0, L - 2, step):
+        out.append(Ob("deep-parent[chain=%d,parent height in %d..%d]" % (L, lo, min(lo + step, L - 2) - 1), C_IDX + "; " + C_TIPS, "long_chain",
+                      {"L": L, "lo": lo, "hi": lo + step}, timeout=1500 if tier == "thorough" else 600))
+    return out
 
 
 def replay(ob: Ob, model):
